@@ -284,6 +284,21 @@ func matchRunTable(st *matchState, t matchTable) {
 								got = -1
 							}
 						}
+						if got == want && b.name == "plain" && !st.hdr.Strict && !matchEncoded && path != "/" {
+							// the same request spelled with a doubled leading slash or a trailing slash (lookup normalises both away)
+							for _, alt := range []string{"/" + path, path + "/", "//" + path + "//"} {
+								var r2 *rux.Route
+								func() {
+									defer func() { _ = recover() }()
+									r2, _, _ = b.r.Match(m, alt)
+								}()
+								if r2 != route {
+									st.report(map[string]any{"kind": "match", "aspect": "selection", "table": texts, "method": m, "path": alt, "router": b.name,
+										"what": fmt.Sprintf("%s %s on %v: selects a different route than the same request spelled %s (route found: %v vs %v)", m, alt, texts, path, r2 != nil, route != nil)}, caseDoc)
+									break
+								}
+							}
+						}
 						if got != want {
 							gotTxt, wantTxt := "no route", "no route"
 							if got > 0 {
